@@ -243,6 +243,77 @@ pub fn layout_stream(run: &mut Run, rng: &mut Rng, n: usize) {
     run.notes.push("command-line layout stream: statements with `;` and `--` inside string literals, comments containing `;` and quotes, trailing semicolons and re-laid variants given to the real program with -c / --command-file; stdout = the library's lines, equal across the variants".to_owned());
 }
 
+/// C19 through the program: `sqlgrep --follow --head` on a file that does not grow, interrupted (SIGINT) while it waits
+/// for the next line. The program must stop — promptly: it is given ten seconds — without reporting an error, and what it
+/// printed must be exactly the complete lines present (a prefix of what an uninterrupted run would print). The interrupt
+/// is sent only after the expected output has arrived (or 3 s), so a loaded machine delays the test instead of failing it.
+pub fn interrupt_stream(run: &mut Run, rng: &mut Rng, n: usize) {
+    let bin = match bin_path() { Some(b) => b, None => { run.count("cli:binary-not-available"); return; } };
+    const DEF: &str = "CREATE TABLE t(line = '(.*)', line[1] => x TEXT);";
+    for _ in 0..n {
+        let defs_path = tmp_file(DEF.as_bytes());
+        let k = rng.below(4);
+        let mut content = String::new();
+        let mut expected = Vec::new();
+        for j in 0..k { let l = format!("line {} {}", j, rng.pick(&["a", "xyz", "\u{e9}"])); content.push_str(&l); content.push('\n'); expected.push(format!("'{}'", l)); }
+        if rng.chance(1, 2) { content.push_str("unterminated"); }
+        let path = tmp_file(content.as_bytes());
+        let aggregate = rng.chance(1, 3);
+        let query = if aggregate { "SELECT COUNT(*) AS n FROM t" } else { "SELECT input FROM t" };
+        let args = vec![path.display().to_string(), "-d".to_owned(), defs_path.display().to_string(), "-c".to_owned(), query.to_owned(), "--follow".to_owned(), "--head".to_owned()];
+        let mut cmd = Command::new(&bin);
+        cmd.args(&args).stdout(Stdio::piped()).stderr(Stdio::null()).stdin(Stdio::null()).env("TZ", "UTC");
+        let mut child = match cmd.spawn() { Ok(c) => c, Err(_) => { run.count("cli:spawn-failed"); continue; } };
+        let mut so = child.stdout.take().unwrap();
+        let collected = Arc::new(std::sync::Mutex::new(Vec::<u8>::new()));
+        let c2 = collected.clone();
+        let reader = std::thread::spawn(move || { let mut buf = [0u8; 4096]; loop { match so.read(&mut buf) { Ok(0) | Err(_) => break, Ok(m) => c2.lock().unwrap().extend_from_slice(&buf[..m]) } } });
+        // wait until the lines present have been printed (non-aggregate) or the last refresh arrived, at most 3 s
+        let want_lines = if aggregate { if k == 0 { 0 } else { 1 } } else { k };
+        let start = Instant::now();
+        loop {
+            let text = String::from_utf8_lossy(&collected.lock().unwrap()).to_string();
+            let screens = crate::util::split_screens(&text);
+            let have = screens.last().map(|s| s.split('\n').filter(|l| !l.is_empty()).count()).unwrap_or(0);
+            let done = if aggregate { k == 0 || (screens.len() > k && have >= 1) } else { have >= want_lines };
+            if done || start.elapsed() > Duration::from_secs(3) { break; }
+            std::thread::sleep(Duration::from_millis(10));
+        }
+        std::thread::sleep(Duration::from_millis(50));
+        unsafe { libc::kill(child.id() as i32, libc::SIGINT); }
+        let t0 = Instant::now();
+        let mut exited = None;
+        while t0.elapsed() < Duration::from_secs(10) {
+            match child.try_wait() { Ok(Some(st)) => { exited = Some(st); break; } _ => std::thread::sleep(Duration::from_millis(10)) }
+        }
+        run.oracle_checks += 1;
+        let desc = format!("sqlgrep {} (file holds {:?}), SIGINT while waiting for more input", args.join(" "), content);
+        match exited {
+            None => {
+                let _ = child.kill(); let _ = child.wait();
+                run.fail(desc, "cli-follow-interrupt-ignored-while-idle", "ten seconds after the interrupt the program is still running".to_owned());
+            }
+            Some(st) => {
+                let _ = reader.join();
+                let text = String::from_utf8_lossy(&collected.lock().unwrap()).to_string();
+                run.count(if aggregate { "cli:interrupt:follow-agg" } else { "cli:interrupt:follow-select" });
+                if !aggregate {
+                    let got: Vec<&str> = text.split('\n').filter(|l| !l.is_empty()).collect();
+                    let is_prefix = got.len() <= expected.len() && got.iter().zip(expected.iter()).all(|(a, b)| a == b);
+                    if !is_prefix || text.contains("Execution error") {
+                        run.fail(desc, "cli-follow-interrupt-output", format!("printed {:?} (exit {:?}); the complete lines are {:?}", got, st.code(), expected));
+                    }
+                } else if text.contains("Execution error") {
+                    run.fail(desc, "cli-follow-interrupt-output", format!("an error was reported: {:?}", text));
+                }
+            }
+        }
+        let _ = std::fs::remove_file(path);
+        let _ = std::fs::remove_file(defs_path);
+    }
+    run.notes.push("command-line interrupt stream: the real program in follow mode on an idle file is sent SIGINT; it must stop within ten seconds, report no error, and have printed a prefix of the complete lines".to_owned());
+}
+
 /// `sqlgrep --follow [--head]` on a file that does not grow: with --head the complete lines present are delivered
 /// (the unterminated tail is not); without --head nothing is. The program never ends by itself, so it is given a
 /// fixed time and then killed; only the *content* printed within that time is judged (too little output within the time
